@@ -1,1 +1,147 @@
-import Depccg.Glue
+/-
+  C11  Batch results align with inputs and do not depend on batch history.
+  Theorems (statements in `C11Defs.lean`, lemmas in `Proofs/C11Lemmas.lean`).
+-/
+import Depccg.Props.C11Defs
+import Depccg.Proofs.C11Lemmas
+
+namespace Depccg.C11
+open Depccg Search Glue
+
+/-! ### chunking and the batch driver -/
+
+theorem chunks_concat : ChunksConcatStatement := by
+  intro α l k cs h
+  exact chunks_flatten h
+
+theorem chunks_count : ChunksCountStatement := by
+  intro α l k cs h
+  obtain ⟨hne, rfl⟩ := chunks_ok h
+  have hsp := splits_pos (k := k) (length_pos_of_ne_nil' hne)
+  exact ⟨chunksAux_length _ hsp _ _ _ (splits_mul_ge _ _), chunksAux_ne_nil _ hsp _ _⟩
+
+theorem chunks_total : ChunksTotalStatement := by
+  intro α l k hne
+  exact chunks_exists k hne
+
+theorem run_batch : RunBatchStatement := by
+  intro σ ρ solo doc maxChunk procs
+  exact runBatch_eq solo doc maxChunk procs
+
+/-! ### the shape check -/
+
+theorem shape_rejected : ShapeRejectedStatement := by
+  intro numCats nDocs nScores sents h
+  unfold typeCheck
+  rcases h with h | h
+  · simp [h]
+  · rw [shapesOK_false h]
+    split <;> rfl
+
+theorem shape_accepted : ShapeAcceptedStatement := by
+  intro numCats n sents h
+  unfold typeCheck
+  rw [shapesOK_true h]
+  simp
+
+/-! ### independence of the numbering of derived categories -/
+
+theorem run_rename : RunRenameStatement := by
+  intro σ g g' s s' cfg h
+  obtain ⟨h1, h2, h3, _⟩ := run_rename_all h cfg
+  exact ⟨h1, h2, h3⟩
+
+/-! ### non-vacuity -/
+
+example : chunks [0, 1, 2, 3, 4, 5, 6] 3 = .ok [[0, 1, 2], [3, 4, 5], [6]] := by decide
+example : chunks [0, 1, 2, 3, 4, 5, 6] 0 = .ok [[0, 1, 2, 3, 4, 5, 6]] := by decide
+example : chunks ([] : List Nat) 3 = .error .valueError := by decide
+example : runBatch (· + 1) [0, 1, 2, 3, 4, 5, 6] 2 3 = .ok [1, 2, 3, 4, 5, 6, 7] := by decide
+example : typeCheck 2 1 1 [⟨2, (2, 2), (2, 3)⟩] = .ok () := by decide
+example : typeCheck 2 1 1 [⟨2, (2, 2), (2, 2)⟩] = .error .runtime := by decide
+example : typeCheck 2 1 2 [⟨2, (2, 2), (2, 3)⟩] = .error .runtime := by decide
+
+namespace Example
+
+/-- swap the derived ids 2 and 5, identity elsewhere -/
+def σ (c : Nat) : Nat := if c = 2 then 5 else if c = 5 then 2 else c
+
+/-- view 1: the derived category is numbered 2 -/
+def g : Grammar where
+  bin x y := if x = 0 ∧ y = 1 then [⟨2, true⟩] else []
+  un x := if x = 1 then [2] else []
+
+/-- view 2: the same derived category is numbered 5 -/
+def g' : Grammar where
+  bin x y := if x = 0 ∧ y = 1 then [⟨5, true⟩] else []
+  un x := if x = 1 then [5] else []
+
+/-- two tokens, two lexical categories 0 and 1 -/
+def s : Sent :=
+  { n := 2, tags := [[3, 1], [2, 4]], deps := [[1, 0, 2], [0, 3, 0]], roots := [2],
+    passes := [[true, true], [true, true]] }
+
+def s' : Sent := { s with roots := [5] }
+
+def cfg : Cfg := { penalty := 1, pruning := 2, nbest := 1, maxStep := 100 }
+
+theorem σ_inj (a b : Nat) (h : σ a = σ b) : a = b := by
+  unfold σ at h
+  split at h <;> split at h <;> (try split at h) <;> (try split at h) <;> omega
+
+theorem σ_eq_zero (x : Nat) : σ x = 0 ↔ x = 0 := by
+  unfold σ; split <;> (try split) <;> omega
+
+theorem σ_eq_one (x : Nat) : σ x = 1 ↔ x = 1 := by
+  unfold σ; split <;> (try split) <;> omega
+
+theorem renamed : Renamed σ g g' s s' where
+  inj := σ_inj
+  lex := by
+    intro row hrow c hc
+    have hlen : row.length = 2 := by
+      simp only [s, List.mem_cons, List.not_mem_nil, or_false] at hrow
+      rcases hrow with rfl | rfl <;> rfl
+    unfold σ
+    rw [if_neg (by omega), if_neg (by omega)]
+  bin := by
+    intro x y
+    simp only [g, g', σ_eq_zero, σ_eq_one]
+    split <;> rfl
+  un := by
+    intro x
+    simp only [g, g', σ_eq_one]
+    split <;> rfl
+  n := rfl
+  tags := rfl
+  deps := rfl
+  passes := rfl
+  roots := by
+    intro c
+    have e : (σ c = 5) ↔ (c = 2) := by
+      unfold σ; split <;> (try split) <;> omega
+    simp only [s, s', List.elem_cons, List.elem_nil]
+    by_cases hc : c = 2
+    · subst hc; rfl
+    · have h1 : (σ c == 5) = false := beq_eq_false_iff_ne.2 (fun h => hc (e.1 h))
+      have h2 : (c == 2) = false := beq_eq_false_iff_ne.2 hc
+      rw [h1, h2]
+
+/-- both runs succeed, and the result differs exactly by the renumbering -/
+example : (run g s cfg).results.map (·.cat) = [2] := by decide
+example : (run g' s' cfg).results.map (·.cat) = [5] := by decide
+example : (run g s cfg).results.map (·.d) = [.bin 2 0 true (.leaf 0 0) (.leaf 1 1)] := by decide
+example : (run g' s' cfg).results.map (·.d) = [.bin 5 0 true (.leaf 0 0) (.leaf 1 1)] := by decide
+example : (run g s cfg).steps = (run g' s' cfg).steps := by decide
+example : (run g' s' cfg).results = (run g s cfg).results.map (renameItem σ) := by decide
+example : (run g' s' cfg).popped = (run g s cfg).popped.map (renameItem σ) := by decide
+/-- the renaming is not the identity on this run -/
+example : (run g' s' cfg).results ≠ (run g s cfg).results := by decide
+
+/-- the instance of the theorem -/
+example : (run g' s' cfg).results = (run g s cfg).results.map (renameItem σ) :=
+  (run_rename σ g g' s s' cfg renamed).1
+
+end Example
+
+end Depccg.C11
